@@ -100,6 +100,7 @@ const STATIC_OPS: &[(&str, &str)] = &[
     ("sparql-order", "SELECT ?s { ?s <x:p> ?o } ORDER BY DESC(?s) over n triples"),
     // a chain of n statements _:b(i) <x:p> _:b(i+1): no nesting in the data, the pretty serializer nests [ ... ]
     ("ttl-chain", "pretty TurtleSerializer on a chain of n blank nodes (the serializer chooses to nest them in [ ])"),
+    ("ttl-type-chain", "pretty TurtleSerializer on a chain of n blank nodes linked by rdf:type (written with the 'a' shorthand, a separate code path)"),
 ];
 /// every skip position of every matching iterator: "it-<store>-<constant positions or _>-<varying position>":
 /// n rows that differ only in the varying position, queried with constants at the constant
@@ -253,10 +254,11 @@ fn run_op(op: &str, n: usize) -> u64 {
             // functional summary: the number of "@value" entries
             String::from_utf8_lossy(ser.as_utf8()).matches("\"@value\"").count() as u64
         }
-        "ttl-list" | "ttl-pretty-stmts" | "ttl-chain" => {
+        "ttl-list" | "ttl-pretty-stmts" | "ttl-chain" | "ttl-type-chain" => {
             let ts: Vec<[ST; 3]> = match op {
                 "ttl-list" => list_triples(n),
                 "ttl-pretty-stmts" => (0..n).map(|i| [s_i(i), iri("x:p"), lit(i)]).collect(),
+                "ttl-type-chain" => (0..n).map(|i| [if i == 0 { iri("x:s") } else { bnode(&format!("b{i}")) }, iri("http://www.w3.org/1999/02/22-rdf-syntax-ns#type"), bnode(&format!("b{}", i + 1))]).collect(),
                 _ => (0..n).map(|i| [if i == 0 { iri("x:s") } else { bnode(&format!("b{i}")) }, iri("x:p"), bnode(&format!("b{}", i + 1))]).collect(),
             };
             let cfg = sophia_turtle::serializer::turtle::TurtleConfig::new().with_pretty(true);
@@ -269,7 +271,7 @@ fn run_op(op: &str, n: usize) -> u64 {
                 Ok(b) => b,
                 // Rio refuses documents nested deeper than its own limit with an error VALUE: a
                 // legitimate way to terminate for C16 (that the serializer wrote such a document is C04's business)
-                Err(e) if op == "ttl-chain" && format!("{e:?}").contains("StackOverflow") => return n as u64,
+                Err(e) if (op == "ttl-chain" || op == "ttl-type-chain") && format!("{e:?}").contains("StackOverflow") => return n as u64,
                 Err(e) => panic!("the Turtle parser rejects the serializer's output: {e:?}"),
             };
             // small enough: the graph read back must be the graph written (up to blank node labels)
@@ -684,7 +686,7 @@ fn gen_case(idx: usize, base: &Rng, sum: &mut Summary) -> Option<Case> {
 const STACK: usize = 2 << 20;
 const SPREAD_BOUND: usize = 64 << 10;
 const STACK_CASE_BASE: usize = 1_000_000;
-fn is_pretty(op: &str) -> bool { matches!(op, "ttl-list" | "ttl-pretty-stmts" | "ttl-chain") }
+fn is_pretty(op: &str) -> bool { matches!(op, "ttl-list" | "ttl-pretty-stmts" | "ttl-chain" | "ttl-type-chain") }
 /// sizes for one operation: powers of ten from 10^4 to `big`; the pretty Turtle serializer takes
 /// quadratic time, so it gets what can be run at all
 fn sizes_for(op: &str, big: usize) -> Vec<usize> {
